@@ -223,7 +223,17 @@ func replaceExpr(expr Expr, from []string, to []Expr, clone bool) Expr {
 			for i, e2 := range e.Exprs {
 				r := replaceExpr(e2, from, to, clone)
 				if c, ok := r.(*Constant); ok && c.Val == zero {
-					return r
+					if i == 0 {
+						return r
+					}
+					// the operands after the constant are never evaluated;
+					// let the folder decide whether the ones before it
+					// can be dropped (only if they are discardable)
+					prev := e.Exprs[:i]
+					if newExprs != nil {
+						prev = newExprs[:i]
+					}
+					return aFolder.Nary(e.Tok, append(slc.Clone(prev), r))
 				}
 				if r != e2 || clone {
 					if newExprs == nil {
